@@ -30,6 +30,7 @@ RULE = (
     "(thorough) non-member strings per parser (near-misses of member values and names, empty, unicode); call sites executed "
     "with the string and the enum spelling; lists / dictionaries of 0..5 task names (any order, repeats, an occasional "
     "non-member) through set_task_lists / set_task_dict; non-trivial = member string or alias; distinct = (parser, input class, member)"
+    " Later additions: alias-shaped visibility strings; upper-case and from_matrix spellings of HomogeneousMatrix frames; task lists / dictionaries."
 )
 ASSUMPTIONS = ["inputs are str", "a raised exception of any type is a rejection"]
 DECIDING = ["parser.member_checked", "parser.nonmember_checked", "C20.shape_sites", "C20.transform_key_sites", "C20.other_sites", "C20.task_helper_sites"]
